@@ -139,6 +139,19 @@ class Check:
                 self.machinery.append("vacuous: action %s of %s never taken" % (a, module))
         return r
 
+    # ---- design run that also exports the spec-defined domain (values of one state variable)
+    def export_configs(self, module, cfgfile, workers=NCPU, var="cfg", keep=lambda c: c.get("op") != "shape", **kw):
+        """Design run of `module` with a state dump; returns (TLCResult, list of values of `var`).
+
+        The spec enumerates its domain as states (one state per configuration), TLC checks the spec's
+        theorems in every state, and the dump hands the very same configurations to the harness."""
+        from . import tlaval
+        dump = os.path.join(self.work, module + "_states")
+        r = self.design(module, cfgfile, workers=workers, coverage=False, extra=["-dump", dump], **kw)
+        states = tlaval.parse_dump(dump + ".dump")
+        os.remove(dump + ".dump")
+        return r, [s[var] for s in states if keep(s[var])]
+
     # ---- trace validation of implementation events
     def validate(self, module, events, cfg=None, chunks=NCPU, stateful=False, group_key=None, timeout=3600, env=None):
         """Validate events with `<module>.tla`. Returns list of (id, clause) rejections.
@@ -296,11 +309,17 @@ def repo_commit(repo):
 
 
 def load_findings():
-    try:
-        with open(FINDINGS) as fh:
-            return json.load(fh).get("findings", [])
-    except FileNotFoundError:
-        return []
+    out = []
+    paths = [FINDINGS]
+    if os.environ.get("VERIF_FINDINGS"):      # development only: extra (pending) entries
+        paths.append(os.environ["VERIF_FINDINGS"])
+    for p in paths:
+        try:
+            with open(p) as fh:
+                out += json.load(fh).get("findings", [])
+        except FileNotFoundError:
+            pass
+    return out
 
 
 def _get(rec, path):
